@@ -101,7 +101,7 @@ Merging can only prune: every reported violation comes from a real execution of 
 import os
 import re
 
-from mc import clock, common, explore, par, report
+from mc import clock, explore, par, report
 from mc.fingerprint import canon
 from mc.term import Term, Unsupported, strip_sgr, wrap_rows
 
